@@ -222,6 +222,7 @@ def r09_3_empty(chk):
 
 def r09_4_header(chk):
     from . import c04
+    from ..terms import subterms as subterms_, ctor_calls as ctor_calls_
     n0 = len(chk.obs)
     c04.r04_1_other_components(chk)
     keep = [o for o in chk.obs[n0:] if o.key.startswith("file-header")]
@@ -232,8 +233,12 @@ def r09_4_header(chk):
     # exactly one object in the FILE-HEADER set: the item registers itself once; LogicalFile builds one set per file
     lf = chk.ix.get_class("LogicalFile")
     init = lf.lookup("__init__")
-    mk = [n for n in walk_local(init.node) if isinstance(n, ast.Call) and norm(n.func).endswith("FileHeaderSet")]
-    chk.require(len(mk) == 1, "R09.4", "one-header-set-per-logical-file",
+    fhs = chk.ix.get_class("FileHeaderSet")
+    isum = chk.terms.inline(init, 2, stop=lambda g: g.module is not init.module)   # (a helper may build the header)
+    mk = ctor_calls_(isum, fhs)
+    in_loop = [e for e in isum.effects if e.loops() and any(isinstance(t, tuple) and any(m_ in list(subterms_(t))
+               for m_ in mk) for t in (e.base, e.value))]
+    chk.require(len(mk) == 1 and not in_loop, "R09.4", "one-header-set-per-logical-file",
                 "a logical file does not create exactly one FILE-HEADER set of its own", init.where)
 
 
